@@ -132,6 +132,8 @@ type Exec struct {
 	iters     map[ssa.Value]*ssa.Range
 	speculating int
 	curLoop   *loopRec
+	recBusy map[string]bool
+	exitHits map[string]int
 	inferN, inferQueries int
 	inferredNames []string
 }
@@ -578,6 +580,72 @@ func (x *Exec) loopModset(fr *Frame, l *loopRec) *ModSet {
 	return ms
 }
 
+// frameInvariants: a function with a stated frame (modifies / pure) keeps, in
+// every loop, the entries of pre-existing objects outside its frame unchanged.
+// Added as automatic loop invariants (checked at entry and at every back edge)
+// for the heap maps the loop may write.
+func (x *Exec) frameInvariants(fr *Frame, l *loopRec) []linv {
+	spec := fr.spec
+	if !fr.root || spec == nil || (len(spec.Modifies) == 0 && !spec.Pure) || spec.AssumeFrame {
+		return nil
+	}
+	at := map[string]types.Type{}
+	for k, v := range fr.params {
+		if v.GT != nil {
+			at[k] = v.GT
+		}
+	}
+	fms := NewModSet()
+	x.modifiesToSet(spec, fms, at, fr.params, fr.entry)
+	if fms.all {
+		return nil
+	}
+	lms := x.loopModset(fr, l)
+	names := map[string]*Sort{}
+	for n, s := range lms.heap {
+		names[n] = s
+	}
+	for n := range lms.cellPts {
+		names[n] = lms.psort[n]
+	}
+	for n := range lms.points {
+		names[n] = lms.psort[n]
+	}
+	if lms.all {
+		for n, s := range x.heapSorts {
+			names[n] = s
+		}
+	}
+	var out []linv
+	x.birth()
+	for _, n := range sortedKeys(names) {
+		n := n
+		s := names[n]
+		if _, whole := fms.heap[n]; whole || strings.HasPrefix(n, "G$") || s.K != SArr {
+			continue
+		}
+		pts := fms.points[n]
+		out = append(out, linv{name: "frame " + strings.TrimPrefix(n, "H$"), kind: "auto", eval: func(st *State) (string, error) {
+			cur := x.heapGet(st, n, s)
+			old := x.heapGet(fr.entry, n, s)
+			if cur == old {
+				return "true", nil
+			}
+			qn := fmt.Sprintf("q!r!%d", x.nextID())
+			var exc []string
+			for _, r := range pts {
+				exc = append(exc, not(eq(qn, r)))
+			}
+			guard := and(exc...)
+			if s.Key.K == SRef {
+				guard = and(append(exc, "(> "+qn+" 0)", "(<= (birth "+qn+") "+x.entryNow+")")...)
+			}
+			return "(forall ((" + qn + " " + s.Key.SMT() + ")) " + implies(guard, eq("(select "+cur+" "+qn+")", "(select "+old+" "+qn+")")) + ")", nil
+		}})
+	}
+	return out
+}
+
 // rangeIndexAlloc finds the hidden index of a lowered range-over-slice loop.
 func rangeIndexAlloc(l *loopRec) *ssa.Alloc {
 	for _, in := range l.head.Instrs {
@@ -602,6 +670,7 @@ func (x *Exec) userInvariants(fr *Frame, l *loopRec) []linv {
 			}})
 		}
 	}
+	out = append(out, x.frameInvariants(fr, l)...)
 	if ra := rangeIndexAlloc(l); ra != nil {
 		if a, ok := fr.addrs[ra]; ok && a.K == AKCell {
 			out = append(out, linv{name: "rangeindex >= -1", kind: "auto", eval: func(st *State) (string, error) {
@@ -1458,7 +1527,22 @@ func (x *Exec) execMakeSlice(fr *Frame, st *State, i *ssa.MakeSlice) {
 	fr.env[i] = Val{GT: i.Type(), S: x.layout(i.Type()), L: []string{r, z, l, c}}
 }
 
-func (x *Exec) allocBudget(fr *Frame) string { return "" }
+func (x *Exec) allocBudget(fr *Frame) string {
+	if x.rootSpec == nil || x.rootSpec.AllocBudget == nil {
+		return ""
+	}
+	root := fr
+	for root.caller != nil {
+		root = root.caller
+	}
+	c := &EvalCtx{x: x, names: root.params, st: root.entry, old: root.entry, oldNames: root.params}
+	v, err := c.eval(x.rootSpec.AllocBudget.E, x.idxSort())
+	if err != nil || len(v.L) != 1 {
+		x.bindingFailure(fmt.Sprintf("alloc_budget: %v", err))
+		return ""
+	}
+	return x.convert(v.One(), v.S[0], x.idxSort())
+}
 
 // ---------- maps ----------
 
